@@ -137,6 +137,21 @@ Definition create (ty : idtype) (nf : nat) (mutable : list (N * nat)) (initial :
   | _ => None
   end.
 
+(* a transaction = several operations, all or nothing *)
+Fixpoint tx_go (m : rm) (ops : list op) : rm * res unit :=
+  match ops with
+  | [] => (m, ROk tt)
+  | o :: rest => match step m o with
+                 | (m', ROk _) => tx_go m' rest
+                 | (_, e) => (m, e)
+                 end
+  end.
+Definition tx_step (m : rm) (ops : list op) : rm * res unit :=
+  match tx_go m ops with
+  | (m', ROk u) => (m', ROk u)
+  | (_, e) => (m, e)
+  end.
+
 Fixpoint run (m : rm) (ops : list op) : list (rm * op * rm * res unit) :=
   match ops with
   | [] => []
